@@ -103,13 +103,36 @@ CLAIMS["C14"] = {
     "design_ref": "DESIGN.md section 3 C14 / HRX", "note": HRXNOTE + "; an accepted path's files are its own (moved under load/<n>/accepted by the stubbed PathStorage.output)",
     "technique": TECH_HRX,
 }
+CLAIMS["C06"] = {
+    "level": "model_checking",
+    "text": "Partial (state / stream round trip; byte identity of files is outside). HRX: for every state reached in the inductive "
+            "step / BMC the configuration captured by write_toml, sent through the real tomli_w/tomllib and loaded into a fresh "
+            "REPEX_state reproduces slot order, weight matrix and fractions, and the initiation loop re-issues exactly the in-flight "
+            "(ensemble, path) pairs, re-locks the same ensembles and keeps them on record for the next restart file. H07: with a "
+            "symbolic seed, after 0..2 chained restarts the scheduler stream (identity and position) is restored and, with one worker, "
+            "the stream of allocation j equals f(seed, j) independent of where the stops were.",
+    "design_ref": "DESIGN.md section 3 C06", "note": HRXNOTE + "; SeedSequence/BitGenerator model validated against numpy; byte identity of data/restart/order files, decimal formatting, real engines and load_path from disk are outside",
+    "technique": TECH_HRX,
+}
+CLAIMS["C07"] = {
+    "level": "other",
+    "text": "Partial (stream identity; 'every in-process draw uses these streams' is a data-flow property outside SMT). With a symbolic "
+            "seed, 1..3 workers, 0..2 chained restarts (stops after a completed step), every finishing order and zero-swap coin outcome: "
+            "each allocation's move stream is (seed,(j,g)) and its engine stream (seed,(j,g,0)) with j the allocation ordinal, pairwise "
+            "distinct and distinct from the scheduler's (seed,()); the scheduler keeps its stream across restarts. Multi-worker restarts "
+            "violate the ordinal/distinctness clause on the unchanged tree: listed as a known finding.",
+    "design_ref": "DESIGN.md section 3 C07 (H07)",
+    "note": "model of numpy SeedSequence.spawn / BitGenerator.state (validated against numpy each run); pick outcomes fixed to the first "
+            "admissible index (stream identity does not depend on them); file layer stubbed; real TOML round trip",
+    "technique": TECH,
+}
 PENDING = "check not built yet in this revision (see DESIGN.md for the plan); no claim is made"
 NOT_APPLICABLE = {
     "C01": "statistical convergence of a whole stochastic sampler: no bounded symbolic encoding; its algebraic obligations are decided under C02/C04/C09/C10/C11",
     "C08": "quantifies over crash positions in a trace of OS file-system effects and the outcome of TOML/path parsers on truncated trees: not symbolically executable with the installed tools (fault enumeration is a different technique family)",
     "C19": "every clause is a round trip through C-level text/binary codecs (str.format/float, struct, re, genfromtxt): not executable on symbolic data here",
 }
-for _p in ["C06", "C07", "C12", "C13", "C16", "C17", "C18", "C20"]:
+for _p in ["C12", "C13", "C16", "C17", "C18", "C20"]:
     if _p not in CLAIMS:
         NOT_APPLICABLE[_p] = PENDING
 NOTES = ("All checks: exit 0 held within the stated bounds; exit 1 + VIOLATION line only for a counterexample that was replayed "
